@@ -219,3 +219,107 @@ func init() {
 	register(&Scenario{Name: "dialer-reconnect-stream", Prop: "C14", Horizon: time.Hour, Weight: 1, Run: c14Stream})
 	register(&Scenario{Name: "dialer-redials-after-handshake-failures", Prop: "C12", Horizon: time.Hour, Weight: 2, Run: c14Stream})
 }
+
+// c14Inproc: the dialer over the real inproc transport, against listeners that
+// come and go: the accept loop of the first listener is kept busy (a slow
+// Attached hook) while the dialer's redial arrives, that listener is then
+// closed and another socket listens on the same address. The dialer must
+// reach the second listener within its back-off, without application action.
+func c14Inproc(w *W) {
+	kind := []string{"pair", "bus", "push", "req", "star"}[w.Choose(simrt.SShape, 5)]
+	r := []time.Duration{5 * time.Millisecond, 20 * time.Millisecond}[w.Choose(simrt.SShape, 2)]
+	busy := 4*r + time.Duration(w.Choose(simrt.SShape, 40))*time.Millisecond
+	w.SetShape("kind", kind)
+	w.SetShape("r", r.String())
+	w.SetShape("busy", busy.String())
+	addr := w.Addr("inproc")
+	s := w.Sock(kind)
+	defer s.Close()
+	attachedS := 0
+	var lastS mangos.Pipe
+	s.SetPipeEventHook(func(ev mangos.PipeEvent, p mangos.Pipe) {
+		if ev == mangos.PipeEventAttached {
+			attachedS++
+			lastS = p
+		}
+	})
+	l1 := w.Sock(peerKind[kind])
+	var first mangos.Pipe
+	n1 := 0
+	l1.SetPipeEventHook(func(ev mangos.PipeEvent, p mangos.Pipe) {
+		if ev == mangos.PipeEventAttached {
+			n1++
+			if n1 == 1 {
+				first = p
+			} else {
+				simrt.Sleep(busy) // the accept loop is away: nobody is waiting in Accept
+			}
+		}
+	})
+	if err := l1.Listen(addr); err != nil {
+		w.Failf("HARNESS/listen", "%v", err)
+		return
+	}
+	if err := s.DialOptions(addr, map[string]interface{}{mangos.OptionDialAsynch: true, mangos.OptionReconnectTime: r, mangos.OptionMaxReconnectTime: r}); err != nil {
+		w.Failf("HARNESS/dial", "%v", err)
+		return
+	}
+	w.Sleep(2 * time.Millisecond)
+	w.Settle()
+	if attachedS != 1 || first == nil {
+		w.Failf("HARNESS/attach", "no first attach (%d)", attachedS)
+		return
+	}
+	// the connection drops: the dialer redials (attach #2 keeps l1's accept
+	// loop busy in the hook), then - for PAIR the second is refused, same path -
+	// further redials find a listener with nobody in Accept
+	w.Op("the first connection is dropped")
+	w.Fault("close")
+	_ = first.Close()
+	for i := 0; attachedS < 2 && i < 200; i++ {
+		w.Sleep(r / 4)
+	}
+	if attachedS < 2 {
+		w.WedgeCheck("C12")
+		w.Failf("C14/no-redial-inproc", "%s dialer (reconnect %v) over inproc did not reconnect after its connection was dropped", kind, r)
+		return
+	}
+	// the second connection is dropped too, while the listener's accept loop
+	// is still inside the Attached callback of that very connection: the next
+	// redial finds the address registered but nobody in Accept, and waits
+	w.Op("the second connection is dropped while the listener's accept loop is busy")
+	w.Fault("close")
+	_ = lastS.Close()
+	w.Sleep(r + r/2 + time.Duration(w.Choose(simrt.SProg, 1000))*time.Microsecond)
+	w.Op("the first listener's socket is closed; another socket listens on the address")
+	l1.Close()
+	l2 := w.Sock(peerKind[kind])
+	defer l2.Close()
+	n2 := 0
+	l2.SetPipeEventHook(func(ev mangos.PipeEvent, p mangos.Pipe) {
+		if ev == mangos.PipeEventAttached {
+			n2++
+		}
+	})
+	if err := l2.Listen(addr); err != nil {
+		w.Failf("C10/address-still-bound", "%s cannot be bound again after the first listener's socket was closed: %v", addr, err)
+		return
+	}
+	t0 := w.Now()
+	bound := 4*r + busy + 20*time.Millisecond
+	for n2 == 0 && w.Now() < t0+bound {
+		w.Sleep(time.Millisecond)
+	}
+	w.Settle()
+	if n2 == 0 {
+		w.WedgeCheck("C12")
+		w.Failf("C14/no-redial-inproc", "%s dialer (reconnect %v) over inproc: its listener went away and another socket has been listening on the same address for %v; the dialer has not connected to it%s", kind, r, w.Now()-t0, w.BlockedReport())
+		return
+	}
+	w.Probe("inproc-dialer-found-new-listener")
+	w.Delivery++
+}
+
+func init() {
+	register(&Scenario{Name: "dialer-reconnect-inproc", Prop: "C14", Horizon: time.Hour, Weight: 1, Run: c14Inproc})
+}
